@@ -381,6 +381,20 @@ fn list_inhabited(
                 if items.is_never() {
                     return list_inhabited(prefix_items, items, &neg.next, builder);
                 }
+                // a list shorter than the negative's prefix cannot be in the negative: each of
+                // those lengths only has to escape the remaining negatives
+                for shorter_len in len..neg_len {
+                    let mut shorter = prefix_items.clone();
+                    for _i in len..shorter_len {
+                        shorter.push(items.clone());
+                    }
+                    let no_rest = Rc::new(SemTypeContext::never());
+                    if let ListInhabited::Yes =
+                        list_inhabited(&mut shorter, &no_rest, &neg.next, builder)?
+                    {
+                        return Ok(ListInhabited::Yes);
+                    }
+                }
                 for _i in len..neg_len {
                     prefix_items.push(items.clone());
                 }
@@ -427,9 +441,15 @@ fn list_inhabited(
                 }
             }
 
+            // a longer list whose first extra item is outside the negative's rest escapes this
+            // negative, but it still has to escape the remaining ones
             let diff = items.diff(&nt.items)?;
             if let IsEmptyStatus::NotEmpty = diff.is_empty_status(builder)? {
-                return Ok(ListInhabited::Yes);
+                let mut longer = prefix_items.clone();
+                longer.push(diff);
+                if let ListInhabited::Yes = list_inhabited(&mut longer, items, &neg.next, builder)? {
+                    return Ok(ListInhabited::Yes);
+                }
             }
 
             // This is correct for length 0, because we know that the length of the
@@ -470,11 +490,12 @@ fn list_formula_is_empty(
                 };
                 let new_len = std::cmp::max(prefix_items.len(), lt.prefix_items.len());
                 if prefix_items.len() < new_len {
-                    if lt.items.is_never() {
+                    // the positions added to the accumulated list come from its own rest type
+                    if items.is_never() {
                         return Ok(IsEmptyStatus::IsEmpty);
                     }
                     for _i in prefix_items.len()..new_len {
-                        prefix_items.push(lt.items.clone());
+                        prefix_items.push(items.clone());
                     }
                 }
                 for i in 0..lt.prefix_items.len() {
